@@ -482,11 +482,20 @@ func c14Client(r *vf.Run, t *testing.T, id string, rng *rand.Rand) {
 	if long {
 		k, nCancel, emptyPadded = 8+rng.Intn(3), 0, false
 	}
-	replay := map[string]any{"role": "client", "downloads": k, "cancelled": nCancel, "empty_padded_frames": emptyPadded, "amplify": amplify, "cancel_churn_rounds": churn, "goaway_at_round": goAwayAt, "long_history": long}
+	// blockedUpload: one more request is an upload whose body reader has nothing to give for the time being (a pipe, a
+	// slow producer): the downloads on the other streams need their credit all the same
+	blockedUpload := !amplify && churn == 0 && goAwayAt < 0 && !long && rng.Intn(10) == 0
+	var triggers []string
+	if blockedUpload {
+		// input-only trigger of known finding F-C14-4
+		triggers = []string{"client.requestBodyReaderBlocksWhileOtherStreamsDownload"}
+		k = 1 + rng.Intn(2)
+	}
+	replay := map[string]any{"role": "client", "downloads": k, "cancelled": nCancel, "empty_padded_frames": emptyPadded, "amplify": amplify, "cancel_churn_rounds": churn, "goaway_at_round": goAwayAt, "long_history": long, "blocked_upload": blockedUpload}
 	failed := false
 	fail := func(rule, detail string) {
 		if !failed {
-			r.Fail("C14."+rule, id, detail, nil, replay)
+			r.Fail("C14."+rule, id, detail, triggers, replay)
 		}
 		failed = true
 	}
@@ -560,10 +569,30 @@ func c14Client(r *vf.Run, t *testing.T, id string, rng *rand.Rand) {
 			})
 			rt.Wait()
 		}
+		var uploadGate chan struct{}
+		if blockedUpload {
+			uploadGate = make(chan struct{})
+			gr := &gatedReader{gate: uploadGate, b: make([]byte, 2000)}
+			utag := id + ".upload"
+			e.Do(utag, func(req *fasthttp.Request) {
+				req.SetRequestURI("https://d.example/" + utag)
+				req.Header.SetMethod("POST")
+				req.Header.Add("x-upload", "1")
+				req.SetBodyStream(gr, -1)
+			})
+			rt.Wait()
+			defer func() {
+				defer func() { recover() }()
+				close(uploadGate)
+			}()
+		}
 		var xs []*c14Xfer
 		for _, s := range e.RequestsSeen() {
 			if seenStreams[s.Stream] {
 				continue
+			}
+			if _, n := s.Get("x-upload"); n > 0 {
+				continue // the upload whose body reader is blocked: not one of the downloads
 			}
 			tag, _ := s.Get("x-vtag")
 			var idx int
@@ -576,7 +605,7 @@ func c14Client(r *vf.Run, t *testing.T, id string, rng *rand.Rand) {
 			if goAwayAt >= 0 {
 				size = 400000 + rng.Intn(500000)
 			}
-			if long {
+			if long || blockedUpload {
 				size = 2400000 + rng.Intn(400000)
 			}
 			x.declared = rng.Intn(2) == 0
@@ -731,8 +760,8 @@ func c14Client(r *vf.Run, t *testing.T, id string, rng *rand.Rand) {
 		}
 		e.Finish()
 	})
-	c01Outcome(r, id, res, nil, replay, "C14")
-	r.Eval(vf.Hash("client", k, nCancel, emptyPadded, amplify, churn > 0), true)
+	c01Outcome(r, id, res, triggers, replay, "C14")
+	r.Eval(vf.Hash("client", k, nCancel, emptyPadded, amplify, churn > 0, blockedUpload), true)
 	if r.WantSample() {
 		r.Sample(replay)
 	}
